@@ -14,7 +14,7 @@ import ast
 from ..core import walk_own, norm, is_self_attr, parent_map, AnalysisError
 from ..resolve import bind_args
 from ..report import Ob, Floor
-from ..rules import twin, count, memo
+from ..rules import twin, count, memo, merge
 from ..abseval import Evaluator, Opaque, Sym
 from .. import exceptions
 
@@ -229,6 +229,9 @@ def check(ctx, tier):
     obs += [o for o in o_loops if "core.instances" in o.loc.replace("/", ".")]
     o_tab, rows = ctx.attempt(selection_tables, ctx, "D-e", default=([], 0))
     obs += o_tab
+    obs += ctx.attempt(lambda c, cl: merge.check(c, cl)[0], ctx, "D-f", default=[])
+    from .c16 import filter_placement          # (c16 imports this module: late import)
+    obs += [o for o in ctx.attempt(filter_placement, ctx, "D-g", default=[]) if o.key.endswith("instance-pass")]
     exceptions.apply(obs)
     floors = [Floor("rdf:type constants in the package", n_consts, 4), Floor("uses of rdf:type constants outside defaults", n_uses, 4),
               Floor("instantiation-property call sites", n_pl, 10), Floor("selection table rows", rows, 40)]
